@@ -21,7 +21,7 @@ ftab = "\n".join(lines)
 rows = ["| seeded change | needs to manifest | result |", "|---|---|---|"]
 for d in sorted(glob.glob(os.path.join(HERE, "seeded", "*"))):
     m = json.load(open(os.path.join(d, "meta.json")))
-    rows.append("| %s | %s | %s |" % (os.path.basename(d), m.get("needs_to_manifest", "").replace("|", "\\|"), m.get("what_i_ran", "").replace("|", "\\|")))
+    rows.append("| %s | %s | %s |" % (os.path.basename(d), m.get("needs_to_manifest", "").replace("|", "\\|"), (m.get("what_i_ran", "") + ((" — SUPERSEDED: " + m["superseded"]) if m.get("superseded") else "") + ((" — OUT OF DOMAIN: " + m["out_of_domain"]) if m.get("out_of_domain") else "")).replace("|", "\\|")))
 stab = "\n".join(rows)
 p = os.path.join(HERE, "DESIGN.md")
 s = open(p).read()
